@@ -87,6 +87,57 @@ DEEP_ALL = DEEP + [k + '+stl' for k in DEEP]
 DEPTHS = [900, 900, 900, 900, 900, 60, 300, 2000, 5000]
 
 
+# the SAME stl macros at DIFFERENT absolute addresses: snippets whose expansion contains label-relative ops without
+# parameters (shared op objects), placed in programs whose layout (where the tables / variables / code are) varies
+SNIPS = {
+    'mul_clear': 'hex.mul.clear_carry',
+    'mul10': 'hex.mul10 2, a',
+    'mul': 'hex.mul 2, c, a, b',
+    'add': 'hex.add 2, a, b',
+    'sub': 'hex.sub 2, a, b',
+    'cmp': 'hex.cmp 2, a, b, l1, l1, l1\n  l1:',
+    'print_uint': 'hex.print_uint 2, a, 1, 1',
+    'print_dec': 'hex.print_dec_uint 2, a',
+    'input_hex': 'hex.input_hex a',
+    'or': 'hex.or 2, a, b',
+    'and': 'hex.and 2, a, b',
+    'inc': 'hex.inc 2, a',
+    'shl': 'hex.shl_hex 2, a',
+    'bit_add': 'bit.add 4, x, y',
+    'bit_inc': 'bit.inc 4, x',
+    'bit_print': 'bit.print_dec_uint 4, x',
+    'bit_cmp': 'bit.cmp 4, x, y, l2, l2, l2\n  l2:',
+    'ptr_read': 'hex.read_hex 2, a, p',
+    'push': 'hex.push 2, a\nhex.pop 2, b',
+}
+SNIP_ORDER = ['mul_clear', 'mul10', 'mul', 'add', 'sub', 'cmp', 'print_uint', 'print_dec', 'input_hex', 'or', 'inc', 'shl',
+              'bit_add', 'bit_inc', 'bit_print', 'bit_cmp', 'and', 'ptr_read', 'push']
+LAYOUT_VARS = 'a: hex.vec 2, 5\nb: hex.vec 2, 3\nc: hex.vec 2, 0\nx: bit.vec 4, 3\ny: bit.vec 4, 1\np: hex.vec 16, 0\n'
+LAYOUTS = ['init_all', 'init_end', 'vars_first', 'seg', 'reserve']
+
+
+def layout_program(progs, snips, layout, nvars=0, padn=0):
+    """registers the program in progs and returns its name"""
+    name = 'L_' + '+'.join(snips) + f'_{layout}_{nvars}_{padn}'
+    if name in progs:
+        return name
+    body = '\n'.join(SNIPS[k] for k in snips)
+    extra = ''.join(f'v{i}: hex.vec 3, {i}\n' for i in range(nvars))
+    pad = f'pad {padn}\n' if padn else ''
+    if layout == 'init_all':
+        src = f'stl.startup_and_init_all\n{body}\nstl.loop\n{extra}{LAYOUT_VARS}'
+    elif layout == 'init_end':
+        src = f'stl.startup\n{body}\nstl.loop\n{extra}{LAYOUT_VARS}{pad}hex.init\n'
+    elif layout == 'vars_first':
+        src = f'stl.startup_and_init_all\n;code\n{extra}{LAYOUT_VARS}{pad}code:\n{body}\nstl.loop\n'
+    elif layout == 'seg':
+        src = f'stl.startup\n;code\nsegment {4096 + 64 * nvars}*w\ncode:\n{body}\nstl.loop\n{extra}{LAYOUT_VARS}hex.init\n'
+    else:
+        src = f'stl.startup\n{body}\nstl.loop\nreserve {nvars + 1}*2*w\n{extra}{LAYOUT_VARS}hex.init\n'
+    progs[name] = (src, True)
+    return name
+
+
 def load_programs():
     progs = dict(HAND)
     for k in list(FAILING_BASE) + DEEP:
@@ -129,7 +180,18 @@ def gen_step(rng, progs, pool):
         st['extra'] = 'empty'
     elif r < 0.11 and stl:
         st['extra'] = 'stl_twice'
+    elif r < 0.16 and stl:
+        st['extra'] = rng.choice(['dup_stl_short', 'dup_stl_short_last', 'dup_stl_path', 'user_is_stl'])
     return st
+
+
+def gen_layout_step(rng, progs, must_have=None, width=64, werror=True):
+    snips = rng.sample(SNIP_ORDER, rng.choice([1, 1, 2, 3]))
+    if must_have and must_have not in snips:
+        snips[0] = must_have
+    layout = rng.choice(LAYOUTS if not set(snips) & {'ptr_read', 'push'} else ['init_all', 'vars_first'])
+    name = layout_program(progs, snips, layout, rng.choice([0, 1, 2, 5, 9]), rng.choice([0, 0, 4, 16]))
+    return step(name, progs, width=width, werror=werror, version=rng.choice([3, 1])), snips
 
 
 def gen_case(rng, progs, idx):
@@ -161,6 +223,11 @@ def gen_case(rng, progs, idx):
     elif kind < 0.42:
         # directed at the parser globals: a failing input right before the probe
         steps.append(gen_step(rng, progs, FAILING))
+    elif 0.50 <= kind < 0.62:
+        # directed at shared op objects: the same stl macros at other absolute addresses (warm cache)
+        w, we = rng.choice([64, 64, 32]), rng.random() < 0.7
+        probe, snips = gen_layout_step(rng, progs, None, w, we)
+        steps = [gen_layout_step(rng, progs, rng.choice(snips), w, we)[0] for _ in range(rng.choice([1, 1, 2]))]
     elif kind < 0.50:
         # directed at an edited file inside the stl directory
         probe = gen_step(rng, progs, ['use_userlib'])
@@ -206,6 +273,29 @@ def directed_cases(progs, first_id):
             fams.append(('short-names', [step(prog, progs), step(prog, progs, stl_short='lib')]))
             fams.append(('short-names', [step(prog, progs, stl_short='lib'), step(prog, progs)]))
             fams.append(('short-names', [step(prog, progs), step(prog, progs, stl_short='shift')]))
+    # (e) probes whose expected result is a DIAGNOSTIC that depends on the stl file list (repeated stl short name / path),
+    #     cold and after a warm cache of the same key
+    for w, we in ((64, True), (32, False)):
+        for extra in ('dup_stl_short', 'dup_stl_short_last', 'dup_stl_path', 'user_is_stl'):
+            fams.append(('stl-list-diagnostic', [step('c_hello_world', progs, width=w, werror=we),
+                                                 step('c_hello_world', progs, width=w, werror=we, extra=extra)]))
+    fams.append(('stl-list-diagnostic', [step('c_hello_world', progs, stl_short='lib'),
+                                         step('c_simple', progs, stl_short='lib', extra='dup_stl_short')]))
+    # (f) the same stl macros at other absolute addresses, cache warm: (tables first -> tables last), (other number of
+    #     variables before the code), (padded / in another segment)
+    for k, sn in enumerate(SNIP_ORDER[:16]):
+        other = SNIP_ORDER[(k + 5) % 16]
+        w, we = ((64, True), (64, False), (32, True))[k % 3]
+        a = layout_program(progs, [sn, other], 'init_all', 1, 0)
+        b = layout_program(progs, [sn], 'init_end', 0, 0)
+        fams.append(('address-shift', [step(a, progs, width=w, werror=we), step(b, progs, width=w, werror=we)]))
+        c = layout_program(progs, [sn], 'vars_first', 1 + k % 4, 0)
+        d = layout_program(progs, [other, sn], 'vars_first', 6 + k % 3, 4 * (k % 2))
+        fams.append(('address-shift', [step(c, progs, width=w, werror=we), step(d, progs, width=w, werror=we)]))
+        if k % 2 == 0:
+            e = layout_program(progs, [sn], 'seg' if k % 4 == 0 else 'reserve', 2 + k % 5, 0)
+            fams.append(('address-shift', [step(b, progs, width=w, werror=we), step(a, progs, width=w, werror=we),
+                                           step(e, progs, width=w, werror=we)]))
     # (d) width / warning mode / edited stl file / namespace left open, each as a two- or three-call history
     fams.append(('width', [step('c_hello_world', progs, width=64), step('c_hello_world', progs, width=32)]))
     fams.append(('warning-mode', [step('W_unused_stl', progs, werror=False), step('W_unused_stl', progs, werror=True)]))
@@ -248,7 +338,17 @@ def materialise(case, roots, side, progs):
                 ul = f"{roots['STL']}/zz_user_{case['id']}.fj"
                 pre.append([ul, USERLIB[st['userlib']], 0])
                 files.append(['u1', f"{base}/zz_user_{case['id']}.fj"])
-        files.append(['f1', str(user)])
+        stl_files = list(files)
+        if st['extra'] == 'dup_stl_short' and stl_files:
+            files.append([stl_files[0][0], str(user)])          # the user file repeats the short name of the first stl file
+        elif st['extra'] == 'dup_stl_short_last' and stl_files:
+            files.append([stl_files[-1][0], str(user)])
+        elif st['extra'] == 'user_is_stl' and stl_files:
+            files.append(['f1', stl_files[0][1]])                # the "user file" is an stl file that is already listed
+        else:
+            files.append(['f1', str(user)])
+        if st['extra'] == 'dup_stl_path' and stl_files:
+            files.append(['f2', stl_files[len(stl_files) // 2][1]])   # after the user file: outside the cached prefix
         if st['extra'] == 'missing':
             files.append(['f2', str(w / 'does_not_exist.fj')])
         elif st['extra'] == 'dup_short':
@@ -541,7 +641,7 @@ def run(ctx):
     mark('proofs')
     progs = load_programs()
     env = Env(ctx)
-    n = int(os.environ.get('FJVERIF_C13_N', '0')) or ctx.n(110, 2000)
+    n = int(os.environ.get('FJVERIF_C13_N', '0')) or ctx.n(90, 2000)
     cases = directed_cases(progs, 100000) + [gen_case(ctx.rng, progs, i) for i in range(n)]
 
     def job(case):
